@@ -106,6 +106,16 @@ pub fn damage(m: &Model, key: &[u8], params: &[Param], kind: Dmg) -> Vec<u8> {
 
 type Released = Vec<(u8, [u8; 16], u32, u64)>;
 
+/// violation-class suffix for "a valid key cannot sign": keys whose signature would exceed the
+/// 65535 bytes tinyvec can hold are a recorded limitation, everything else is keyed by level count
+pub fn why_cannot(m: &Model, params: &[Param]) -> String {
+    if m.hss_sig_len(params) > u16::MAX as usize {
+        "signature-longer-than-65535-bytes".into()
+    } else {
+        format!("levels={}", params.len())
+    }
+}
+
 #[derive(Clone, Debug)]
 pub struct CallEval {
     pub sig: Option<Vec<u8>>,
@@ -269,12 +279,15 @@ impl Shared {
                     Res::Panic(s) => {
                         class = "valid-key:panic".to_string();
                         v.push(Viol::new(format!("C11:panic:sign:{}", lib_api::site_of(s)), format!("sign panicked on a well-formed in-lifetime key ({}): {}", self.cfg.label(), s)));
-                        v.push(Viol::new(format!("C05:cannot-sign:levels={}", levels), format!("a valid {}-level key cannot sign (panic {})", levels, s)));
+                        v.push(Viol::new(format!("C05:cannot-sign:{}", why_cannot(m, &info.params)), format!("a valid {}-level key cannot sign (panic {})", levels, s)));
+                        if !out.cb_args.is_empty() {
+                            v.push(Viol::new("C04:leaf-consumed-then-panic", format!("the callback accepted the successor key and the call then panicked without a signature ({})", s)));
+                        }
                     }
                     Res::Err => {
                         if cb == Cb::Accept {
                             class = "valid-key:refused".to_string();
-                            v.push(Viol::new(format!("C05:cannot-sign:levels={}", levels), format!("a valid in-lifetime key was refused ({} counter {})", self.cfg.label(), info.counter)));
+                            v.push(Viol::new(format!("C05:cannot-sign:{}", why_cannot(m, &info.params)), format!("a valid in-lifetime key was refused ({} counter {})", self.cfg.label(), info.counter)));
                         } else {
                             class = "valid-key:reject->err".to_string();
                             if out.cb_args.len() != 1 {
@@ -490,7 +503,9 @@ impl Shared {
 
     pub fn enabled(&self, s: &St) -> Vec<Act> {
         if let Some(ms) = self.cfg.max_steps {
-            if s.released as u64 >= ms {
+            // the window is bounded on the persisted counter (a key may advance without a release)
+            let c = if s.key.len() >= 8 { u64::from_be_bytes(s.key[..8].try_into().unwrap()) } else { u64::MAX };
+            if s.released as u64 >= ms || c >= self.cfg.start.saturating_add(ms) {
                 return vec![];
             }
         }
